@@ -11,6 +11,7 @@ require (
 	github.com/cosmos/cosmos-sdk v0.53.0-rc.2
 	github.com/cosmos/ibc-go/v10 v10.0.0
 	github.com/cosmos/interchain-security/v7 v7.0.0
+	github.com/golang/mock v1.6.0
 	pgregory.net/rapid v1.3.0
 )
 
